@@ -461,7 +461,11 @@ def run(chk):
     chk.validate("C19Trace", evs, shard=6000, label="validity", keyfn=_key, corrupt=_corrupt)
     chk.validate("C19Trace", pevs, shard=1500, label="parent-algebra", corrupt=_corrupt)
     chk.extra["parent_argument_tuples"] = len(pevs)
-    evs = evs + pevs
+    # the default GFF3 reader on foreign files (spec/GffParse.tla): a public operation on legal input
+    from bcverif.props import gffparse
+
+    gevs = gffparse.leg(chk)
+    evs = evs + pevs + gevs
     chk.nontrivial = len({json.dumps(e[1:4]) for e in evs})
     chk.extra["fault_cases_from_tlc"] = len([c for c in cases if c[1] != "random"])
     chk.extra["random_ctor_tuples"] = len([c for c in cases if c[1] == "random"])
